@@ -76,7 +76,8 @@ func checkGuards(r *Reporter, p *Prog, rule string, rows []GuardRow) {
 		}
 		for m := range row.CH {
 			if p.FuncDecl(row.Pkg, row.Type, m) == nil {
-				r.Unresolved(rule, row.Pkg+"."+row.Type+"."+m, "caller-holds helper not found")
+				// nothing to check under this name; a renamed or re-shaped helper is found by inference
+				r.Advise(fmt.Sprintf("%s: tabled caller-holds helper %s.%s.%s does not exist (inference covers whatever replaced it)", rule, row.Pkg, row.Type, m))
 			}
 		}
 		pkgs[row.Pkg] = true
@@ -143,6 +144,7 @@ func checkGuards(r *Reporter, p *Prog, rule string, rows []GuardRow) {
 	var callSites map[string]int          // "Type.method" -> direct call sites seen
 	var escapes map[string]string         // "Type.method" -> why it cannot be a helper
 	fnDecls := map[string]*ast.FuncDecl{} // funcKey -> decl
+	pseudoFns := map[string]string{}      // funcKey of a package-level function with a receiver-role parameter -> that parameter's type
 	handledLits := map[string]map[*ast.FuncLit]bool{}
 	for _, pkg := range pkgList {
 		handledLits[pkg] = handledFactoryLits(p, pkg)
@@ -169,6 +171,21 @@ func checkGuards(r *Reporter, p *Prog, rule string, rows []GuardRow) {
 				if fd.Recv != nil && len(fd.Recv.List) > 0 && len(fd.Recv.List[0].Names) > 0 {
 					if obj := info.Defs[fd.Recv.List[0].Names[0]]; obj != nil {
 						recvPath = fmt.Sprintf("%s@%d", obj.Name(), obj.Pos())
+					}
+				}
+				// an unexported package-level function operating on one object of a type of this package
+				// (a former method): that parameter plays the receiver's role
+				if fd.Recv == nil && !fd.Name.IsExported() {
+					if id := pseudoRecvIdent(fd, ""); id != nil {
+						if pt := pseudoRecvType(fd); pt != "" && p.FuncDecl(pkg, pt, fd.Name.Name) == fd {
+							if _, st := p.NamedStruct(pkg, pt); st != nil {
+								if obj := info.Defs[id]; obj != nil {
+									recvT = pt
+									recvPath = fmt.Sprintf("%s@%d", obj.Name(), obj.Pos())
+									pseudoFns[fkey] = pt
+								}
+							}
+						}
 					}
 				}
 				for i := range rows {
@@ -246,8 +263,8 @@ func checkGuards(r *Reporter, p *Prog, rule string, rows []GuardRow) {
 				fresh := freshLocals(info, fd.Body)
 				seen := map[ast.Node]bool{}
 				opts := &FlowOpts{Info: info, SyncCallee: syncCalleeDefault(info), SkipLit: func(l *ast.FuncLit) bool { return handledLits[pkg][l] }}
-				var chCall func(x ast.Node, se *ast.SelectorExpr, stack []ast.Node, held LockSet)
-				chCall = func(x ast.Node, se *ast.SelectorExpr, stack []ast.Node, held LockSet) {
+				var chCore func(x ast.Node, rtName, rtPkgPath, fnName string, recvX ast.Expr, embChain string, stack []ast.Node, held LockSet)
+				chCall := func(x ast.Node, se *ast.SelectorExpr, stack []ast.Node, held LockSet) {
 					sel := info.Selections[se]
 					if sel == nil || sel.Kind() != types.MethodVal {
 						return
@@ -261,8 +278,48 @@ func checkGuards(r *Reporter, p *Prog, rule string, rows []GuardRow) {
 					if rt == nil || rt.Obj().Pkg() == nil {
 						return
 					}
+					chCore(x, rt.Obj().Name(), rt.Obj().Pkg().Path(), fn.Name(), se.X, embeddedChain(sel, len(sel.Index())-1), stack, held)
+				}
+				// a call of a package-level function with a receiver-role parameter: a call of that
+				// "method" on the argument
+				chFuncCall := func(x *ast.CallExpr, stack []ast.Node, held LockSet) {
+					fn := staticCallee(info, x)
+					if fn == nil || fn.Pkg() == nil {
+						return
+					}
+					if sig, _ := fn.Type().(*types.Signature); sig == nil || sig.Recv() != nil {
+						return
+					}
+					hd := p.decls().byFunc[fn]
+					if hd == nil || hd.Recv != nil || hd.Name.IsExported() {
+						return
+					}
+					id := pseudoRecvIdent(hd, "")
+					pt := pseudoRecvType(hd)
+					if id == nil || pt == "" {
+						return
+					}
+					idx, k := -1, 0
+					for _, fl := range hd.Type.Params.List {
+						for _, nm := range fl.Names {
+							if nm == id {
+								idx = k
+							}
+							k++
+						}
+					}
+					if idx < 0 || idx >= len(x.Args) {
+						return
+					}
+					arg := ast.Unparen(x.Args[idx])
+					if u, isAddr := arg.(*ast.UnaryExpr); isAddr && u.Op == token.AND {
+						arg = ast.Unparen(u.X)
+					}
+					chCore(x, pt, fn.Pkg().Path(), fn.Name(), arg, "", stack, held)
+				}
+				chCore = func(x ast.Node, rtName, rtPkgPath, fnName string, recvX ast.Expr, embChain string, stack []ast.Node, held LockSet) {
 					if !seen[x] {
-						mk := rt.Obj().Name() + "." + fn.Name()
+						mk := rtName + "." + fnName
 						callSites[mk]++
 						if len(stack) >= 1 {
 							switch stack[len(stack)-1].(type) {
@@ -289,9 +346,9 @@ func checkGuards(r *Reporter, p *Prog, rule string, rows []GuardRow) {
 							}
 						}
 					}
-					if e, isOwner := ownerCH[rt.Obj().Name()+"."+fn.Name()]; isOwner && !seen[x] {
+					if e, isOwner := ownerCH[rtName+"."+fnName]; isOwner && !seen[x] {
 						seen[x] = true
-						k := aggKey{fkey, rt.Obj().Name() + "." + fn.Name() + "()", "CH-owner-" + e.mode.String()}
+						k := aggKey{fkey, rtName + "." + fnName + "()", "CH-owner-" + e.mode.String()}
 						a := aggs[k]
 						if a == nil {
 							a = &agg{first: p.posStr(x.Pos())}
@@ -310,7 +367,7 @@ func checkGuards(r *Reporter, p *Prog, rule string, rows []GuardRow) {
 								}
 							}
 						default:
-							a.bad = append(a.bad, fmt.Sprintf("%s: %s.%s (which touches fields guarded by the mutex of %s) is called outside a method of %s", p.posStr(x.Pos()), rt.Obj().Name(), fn.Name(), e.row.ViaRecvType, e.row.ViaRecvType))
+							a.bad = append(a.bad, fmt.Sprintf("%s: %s.%s (which touches fields guarded by the mutex of %s) is called outside a method of %s", p.posStr(x.Pos()), rtName, fnName, e.row.ViaRecvType, e.row.ViaRecvType))
 							return
 						}
 						if held[want] < e.mode && !condLocked(x.Pos(), want) {
@@ -326,28 +383,28 @@ func checkGuards(r *Reporter, p *Prog, rule string, rows []GuardRow) {
 								}
 								fnN.chain = "." + e.row.Mutex
 							}
-							a.bad = append(a.bad, fmt.Sprintf("%s: call of %s.%s needs %s held %s, held: %s", p.posStr(x.Pos()), rt.Obj().Name(), fn.Name(), displayPath(want), e.mode, held))
+							a.bad = append(a.bad, fmt.Sprintf("%s: call of %s.%s needs %s held %s, held: %s", p.posStr(x.Pos()), rtName, fnName, displayPath(want), e.mode, held))
 						}
 						return
 					}
-					if e, isEmb := ech[rt.Obj().Name()+"."+fn.Name()]; isEmb && !seen[x] {
+					if e, isEmb := ech[rtName+"."+fnName]; isEmb && !seen[x] {
 						seen[x] = true
-						k := aggKey{fkey, rt.Obj().Name() + "." + fn.Name() + "()", "CH-" + e.mode.String()}
+						k := aggKey{fkey, rtName + "." + fnName + "()", "CH-" + e.mode.String()}
 						a := aggs[k]
 						if a == nil {
 							a = &agg{first: p.posStr(x.Pos())}
 							aggs[k] = a
 						}
 						a.n++
-						if ro := rootObj(info, se.X); ro != nil && fresh[ro] {
+						if ro := rootObj(info, recvX); ro != nil && fresh[ro] {
 							return
 						}
-						base, okp := pathOf(info, se.X)
+						base, okp := pathOf(info, recvX)
 						if !okp {
 							a.bad = append(a.bad, fmt.Sprintf("%s: receiver of caller-holds helper is not an access path", p.posStr(x.Pos())))
 							return
 						}
-						base += embeddedChain(sel, len(sel.Index())-1)
+						base += embChain
 						want := base + e.chain
 						if held[want] < e.mode && !condLocked(x.Pos(), want) {
 							fnN := needs[fkey]
@@ -363,16 +420,16 @@ func checkGuards(r *Reporter, p *Prog, rule string, rows []GuardRow) {
 							} else {
 								fnN.chain = chain
 							}
-							a.bad = append(a.bad, fmt.Sprintf("%s: call of caller-holds helper %s needs %s held %s, held: %s", p.posStr(x.Pos()), fn.Name(), displayPath(want), e.mode, held))
+							a.bad = append(a.bad, fmt.Sprintf("%s: call of caller-holds helper %s needs %s held %s, held: %s", p.posStr(x.Pos()), fnName, displayPath(want), e.mode, held))
 						}
 						return
 					}
 					for i := range rows {
 						row := &rows[i]
-						if fullPath(row.Pkg) != rt.Obj().Pkg().Path() || (row.Type != rt.Obj().Name() && row.ViaRecvType != rt.Obj().Name()) {
+						if fullPath(row.Pkg) != rtPkgPath || (row.Type != rtName && row.ViaRecvType != rtName) {
 							continue
 						}
-						need, ok := chOf(row, fn.Name())
+						need, ok := chOf(row, fnName)
 						if !ok {
 							continue
 						}
@@ -380,14 +437,14 @@ func checkGuards(r *Reporter, p *Prog, rule string, rows []GuardRow) {
 							return
 						}
 						seen[x] = true
-						k := aggKey{fkey, row.Type + "." + fn.Name() + "()", "CH-" + need.String()}
+						k := aggKey{fkey, row.Type + "." + fnName + "()", "CH-" + need.String()}
 						a := aggs[k]
 						if a == nil {
 							a = &agg{first: p.posStr(x.Pos())}
 							aggs[k] = a
 						}
 						a.n++
-						if ro := rootObj(info, se.X); ro != nil && fresh[ro] {
+						if ro := rootObj(info, recvX); ro != nil && fresh[ro] {
 							return
 						}
 						exKey2 := fd.Name.Name
@@ -397,12 +454,12 @@ func checkGuards(r *Reporter, p *Prog, rule string, rows []GuardRow) {
 						if _, ex := row.Exempt[exKey2]; ex {
 							return
 						}
-						base, okp := pathOf(info, se.X)
+						base, okp := pathOf(info, recvX)
 						if !okp {
 							a.bad = append(a.bad, fmt.Sprintf("%s: receiver of caller-holds helper is not an access path", p.posStr(x.Pos())))
 							return
 						}
-						base += embeddedChain(sel, len(sel.Index())-1)
+						base += embChain
 						want := base + "." + row.Mutex
 						if held[want] < need && !condLocked(x.Pos(), want) {
 							// a helper that calls a caller-holds helper on its own receiver is itself a
@@ -420,7 +477,7 @@ func checkGuards(r *Reporter, p *Prog, rule string, rows []GuardRow) {
 							} else {
 								fnN.chain = chain
 							}
-							a.bad = append(a.bad, fmt.Sprintf("%s: call of caller-holds helper %s needs %s held %s, held: %s", p.posStr(x.Pos()), fn.Name(), displayPath(want), need, held))
+							a.bad = append(a.bad, fmt.Sprintf("%s: call of caller-holds helper %s needs %s held %s, held: %s", p.posStr(x.Pos()), fnName, displayPath(want), need, held))
 						}
 					}
 				}
@@ -613,9 +670,40 @@ func checkGuards(r *Reporter, p *Prog, rule string, rows []GuardRow) {
 						// call of a caller-holds helper
 						se, ok := x.Fun.(*ast.SelectorExpr)
 						if !ok {
+							chFuncCall(x, stack, held)
 							return
 						}
 						chCall(x, se, stack, held)
+					case *ast.Ident:
+						// a receiver-role function used as a value escapes
+						if fn, isFn := info.Uses[x].(*types.Func); isFn {
+							if hd := p.decls().byFunc[fn.Origin()]; hd != nil && hd.Recv == nil && !hd.Name.IsExported() {
+								if pt := pseudoRecvType(hd); pt != "" {
+									isCallee := false
+									for i := len(stack) - 1; i >= 0; i-- {
+										switch y := stack[i].(type) {
+										case *ast.ParenExpr, *ast.IndexExpr, *ast.IndexListExpr:
+											continue
+										case *ast.CallExpr:
+											if staticCallee(info, y) == fn.Origin() {
+												f0 := ast.Unparen(y.Fun)
+												switch z := f0.(type) {
+												case *ast.IndexExpr:
+													f0 = z.X
+												case *ast.IndexListExpr:
+													f0 = z.X
+												}
+												isCallee = ast.Unparen(f0) == ast.Expr(x)
+											}
+										}
+										break
+									}
+									if !isCallee {
+										escapes[pt+"."+fn.Name()] = "used as a function value at " + p.posStr(x.Pos())
+									}
+								}
+							}
+						}
 					}
 				})
 			}
@@ -624,10 +712,10 @@ func checkGuards(r *Reporter, p *Prog, rule string, rows []GuardRow) {
 		changed := false
 		for fkey, on := range ownerNeeds {
 			fd := fnDecls[fkey]
-			if fd == nil || fd.Recv == nil {
+			if fd == nil || (fd.Recv == nil && pseudoFns[fkey] == "") {
 				continue
 			}
-			mk := recvTypeName(fd) + "." + fd.Name.Name
+			mk := recvTypeName(fd) + pseudoFns[fkey] + "." + fd.Name.Name
 			if escapes[mk] != "" || callSites[mk] == 0 {
 				continue
 			}
@@ -638,17 +726,17 @@ func checkGuards(r *Reporter, p *Prog, rule string, rows []GuardRow) {
 		}
 		for fkey, fnN := range needs {
 			fd := fnDecls[fkey]
-			if fd == nil || !fnN.recvOnly || fd.Name.IsExported() || fd.Recv == nil {
+			if fd == nil || !fnN.recvOnly || fd.Name.IsExported() || (fd.Recv == nil && pseudoFns[fkey] == "") {
 				continue
 			}
-			mk := recvTypeName(fd) + "." + fd.Name.Name
+			mk := recvTypeName(fd) + pseudoFns[fkey] + "." + fd.Name.Name
 			if _, tabled := fnN.row.CH[fd.Name.Name]; tabled {
 				continue
 			}
 			if escapes[mk] != "" || callSites[mk] == 0 {
 				continue
 			}
-			rt := recvTypeName(fd)
+			rt := recvTypeName(fd) + pseudoFns[fkey]
 			if fnN.chain != "" && fnN.chain != "."+fnN.row.Mutex {
 				// a method of a type that embeds the guarded type
 				if cur, ok := ech[mk]; !ok || cur.mode < fnN.mode {
